@@ -96,6 +96,9 @@ DepthUpTo(k) == IF k = 0 THEN <<>>
                      d @@ (k :> (IF ps = {} THEN 1 ELSE 1 + CHOOSE m \in ps : \A x \in ps : x <= m))
 ExactDepth(o) == LET d == DepthUpTo(n) IN \A i \in 1..n : o.depth[i] = (IF T_Has(i) THEN d[i] ELSE 0)
 ExactMiss(c, o) == \A k \in DOMAIN o.miss : Ans(o.miss[k].r) = T_Miss(c.ta, SetOf(o.miss[k].X), SetOf(o.miss[k].H))
+ExactCut(o)   == \A k \in DOMAIN o.cut : Ans(o.cut[k].r) = T_Cut(SetOf(o.cut[k].W), SetOf(o.cut[k].X), SetOf(o.cut[k].S))
+ExactMissS(o) == \A k \in DOMAIN o.miss_s :
+                    Ans(o.miss_s[k].r) = T_MissS(SetOf(o.miss_s[k].X), SetOf(o.miss_s[k].W), SetOf(o.miss_s[k].S))
 ExactRef(o)  == \A r \in Refs : o.ref[r] = RefVal(r) /\ o.refs[r] = RefVal(r)
 ExactAll(o)  == Ans(o.all) = PresentS
 \* documented meaning / meaning of the graph-traversal code as it is
@@ -120,6 +123,8 @@ Judge(o) ==
        ELSE IF ~ExactMb(c, o) THEN "Exact:mb"
        ELSE IF ~ExactDepth(o) THEN "Exact:depth"
        ELSE IF ~ExactMiss(c, o) THEN "Exact:miss"
+       ELSE IF ~ExactCut(o) THEN "Exact:cut"
+       ELSE IF ~ExactMissS(o) THEN "Exact:miss_s"
        ELSE IF ~ExactRef(o) THEN "Exact:refs"
        ELSE IF ~ExactAll(o) THEN "Exact:all"
        ELSE IF ~ExactRC(c, o) THEN "Exact:rc"
